@@ -33,7 +33,9 @@ def main(tier):
             if cls in ("self", "removed", "ancestor"):
                 if unchecked:
                     # the panic must be the wrapper's own `expect` on the checked result (top frame = the wrapper), whatever its message says
-                    ok = exit_ == "panic" and (rec.get("frames") or [""])[-1] == "crate::id::NodeId::" + entry
+                    # (the wrapper itself or a diverging helper it calls, after the checked form has returned its Err - not a panic from inside the checked form)
+                    frs = rec.get("frames") or []
+                    ok = exit_ == "panic" and ("crate::id::NodeId::" + entry) in frs and not any(f_.startswith("crate::id::NodeId::checked_") for f_ in frs)
                     want = "panic (checked form fails)"
                 elif cls == "self":
                     want = "Err(%s)" % e2props.e2run.SELF_ERR[op]
